@@ -70,10 +70,55 @@ def cells_for(ck):
     return out
 
 
+def typed_object_arith(ck, rng):
+    """binary operators and comparisons on parameters annotated with builtin Python types (float/int/str/bytes/list/tuple):
+    the compiler selects type-specific object helpers (PyNumberBinop float-op-int, unicode concatenation/equality, ...) whose
+    bodies depend on CYTHON_USE_PYLONG_INTERNALS / CYTHON_ASSUME_SAFE_MACROS / the Limited API"""
+    from vlib import values
+    pools = {
+        'float': ['0.0', '-0.0', '1.5', '-2.25', '1e308', '5e-324', 'inf', '-inf', 'nan', '9007199254740993.0', '-1.0'],
+        'int': ['0', '1', '-1', '7', '2**30', '-2**30', '2**31', '2**53 + 1', '-2**63', '2**64', '10**30', '-10**30', '2**1024'],
+        'str': ["''", "'a'", "'ab'", "'\\xe9'", "'\\u20ac'", "'\\U0001f600'"],
+        'bytes': ["b''", "b'a'", "b'ab\\x00'"],
+        'list': ['[]', '[1]', '[1, 2]'],
+        'tuple': ['()', '(1,)', '(1, 2)'],
+    }
+    num_ops = ['+', '-', '*', '/', '//', '%', '**', '==', '!=', '<', '>=']
+    seq_ops = ['+', '*', '==', '!=', '<']
+    funcs, cases = [], []
+    n = 0
+    for t1, t2, ops in [('float', 'int', num_ops), ('int', 'float', num_ops), ('float', 'float', num_ops), ('int', 'int', num_ops),
+                        ('str', 'str', ['+', '==', '!=', '<', 'in']), ('bytes', 'bytes', ['+', '==', '!=', 'in']),
+                        ('str', 'int', ['*']), ('list', 'int', ['*']), ('list', 'list', seq_ops[:1] + seq_ops[2:]),
+                        ('tuple', 'tuple', seq_ops[:1] + seq_ops[2:]), ('tuple', 'int', ['*'])]:
+        for op in ops:
+            for form in ('ret', 'aug'):
+                if form == 'aug' and op in ('==', '!=', '<', '>=', 'in'):
+                    continue
+                name = 'tz%dz' % n
+                n += 1
+                body = 'return a %s b' % op if form == 'ret' else 'a %s= b\n    return a' % op
+                funcs.append('def %s(a: %s, b: %s):\n    %s\n' % (name, t1, t2, body))
+                pa, pb = pools[t1], pools[t2]
+                if op in ('*', '**') and t2 == 'int':
+                    pb = [x for x in pb if x in ('0', '1', '-1', '7')] + (['2'] if t1 in ('float', 'int') else [])
+                if op == '**' and t1 == 'int':
+                    pa = [x for x in pa if '1024' not in x and '10**30' not in x]
+                # the zero / unit corner (signed zeros, 0, 1, -1, empty) is always driven; the rest is sampled
+                core = [(x, y) for x in pa[:3] for y in pb[:3]]
+                pairs = [(x, y) for x in pa for y in pb if (x, y) not in core]
+                if len(pairs) > ck.pick(30, 90):
+                    pairs = rng.sample(pairs, ck.pick(30, 90))
+                pairs = core + pairs
+                for x, y in pairs:
+                    cases.append({'f': name, 'a': '(%s, %s,)' % (x, y), 't': 'typedobj:%s%s%s' % (t1, op, t2)})
+    return ('c39tobj', '# cython: language_level=3\n' + '\n'.join(funcs), '.py', cases)
+
+
 def workloads(ck):
     rng = ck.rng('w')
     W = []
-    for i in range(ck.pick(2, 8)):
+    for i in range(ck.pick(2, 5)):
         src, funcs = pygen.gen_module(rng, ck.pick(30, 40))
         cases = []
         for f in funcs:
@@ -81,8 +126,9 @@ def workloads(ck):
                 cases.append({'f': f['name'], 'a': a, 't': 'pygen'})
         W.append(('c39py%d' % i, src, '.py', cases))
     from props import C36
-    src, cases = C36.c02_sample(ck, ck.pick(40, 600))
+    src, cases = C36.c02_sample(ck, ck.pick(40, 250))
     W.append(('c39arith', src, '.py', cases))
+    W.append(typed_object_arith(ck, rng))
     hc = hostile.cases(rng)
     byf = {}
     for c in hc:
@@ -256,7 +302,12 @@ def main(ck):
         ck.discrepancy('crash:cell=%s:%s' % (cname, fkey), 'crash/hang %s in cell %s on %s%s' % (cr['kind'], cname, fn, cr['case'].get('a')),
                        {'cell': cname, 'module_name': name, 'case': cr['case'], 'stderr': cr['stderr'][-2000:], 'module_source': wsrc[name][1],
                         'ext': wsrc[name][2]})
-    base_ok = all(v[0] == 'ok' for v in cells[0]['mods'].values())
+    # a generated program that the compiler rejects or crashes on (C43's subject) is dropped from the workload and counted
+    untranslatable = sorted(n for n, v in cells[0]['mods'].items() if v[0] == 'translate-failed' and n.startswith('c39py'))
+    ck.cov['generated_modules_dropped_untranslatable'] = {n: cells[0]['mods'][n][1][-200:] for n in untranslatable}
+    npy = sum(1 for w in W if w[0].startswith('c39py'))
+    ck.inconclusive_if(len(untranslatable) * 4 > npy, 'more than a quarter of the generated modules did not translate: %s' % untranslatable)
+    base_ok = all(v[0] == 'ok' for n, v in cells[0]['mods'].items() if n not in untranslatable)
     ck.inconclusive_if(not base_ok, 'base cell failed to build: %s' % cells[0]['mods'])
     exercised = [n for n, v in per_cell.items() if n != 'base' and v['cases_compared'] > 0]
     not_ex = {n: v['modules'] for n, v in per_cell.items() if n != 'base' and any(s != 'ok' for s in v['modules'].values())}
